@@ -22,7 +22,9 @@ SPEC = {
             "P,V in {0,1,4095,4096,4097,65535,65536,65537,131072,2^20} (quick: a 10-pair Latin diagonal per behaviour; "
             "thorough: all 100 pairs) x {no deadline, deadline} x delay plans drawn from the catalogue "
             "{none, {waitpid,poll,read,write} x call #1..3 x {1 ms, 20 ms, until-the-child-is-zombie-or-blocked}, every call 1 ms, "
-            "seeded 2-3 delay plans}; plus targeted exit-vs-poll races, timeouts (incl. a SIGTERM-ignoring child), 24 calls in "
+            "seeded 2-3 delay plans}; plus targeted exit-vs-poll races, timeouts against silent children (incl. a SIGTERM-ignoring one) and against children whose "
+            "poll set is never quiet (ticking stdout/stderr, closed stdout/stderr/stdin then hang), a grandchild that keeps the "
+            "child's stdout/stderr write ends open for 2.5 s or until killed (both APIs), 24 calls in "
             "one process (descriptor growth), Subprocess life cycle. Each scenario runs in its own forked process. "
             "distinct_nontrivial = distinct (api, behaviour, payload bucket | volume bucket), delay-plan kinds, "
             "check/stdin/timeout combinations and monitor outcomes observed.",
@@ -42,7 +44,10 @@ SPEC = {
         "run_process:signal-mid-write:*", "run_process:huge-stderr:V=1M", "run_process:timeout:*",
         "run_process:timeout-sigterm-ignored:*", "run_process_repeat:repeat:*",
         "communicate:no-deadline:cat", "communicate:deadline:cat", "communicate:cat:P=1M", "communicate:deadline-expires:*",
-        "lifecycle:*", "plan:none", "plan:waitpid:settle", "plan:poll:settle", "plan:poll:20ms", "plan:read:*", "plan:write:*",
+        "lifecycle:*", "run_process:timeout-ticking-stdout:*", "run_process:timeout-closed-stdout-hangs:*",
+        "run_process:timeout-closed-stderr-hangs:*", "run_process:timeout-closed-stdin-hangs:*", "run_process:timeout-ticking-sigterm-ignored:*",
+        "run_process:lingering-writer-never-closes:*", "run_process:lingering-writer-2.5s:*", "communicate:lingering-writer-2.5s:*",
+        "communicate:lingering-writer-never-closes:*", "plan:none", "plan:waitpid:settle", "plan:poll:settle", "plan:poll:20ms", "plan:read:*", "plan:write:*",
         "run_process:check=1:*", "run_process:check=0:stdin=nullptr:*", "monitor:witness-selftest:deadlock-detected",
         "monitor:reaped:ECHILD", "monitor:fds:conserved*", "communicate:stderr=pipe", "communicate:stderr=devnull",
     ],
